@@ -38,6 +38,11 @@ statement only, never from `_depends`):
   reach the same parameter again, under every batching form (batch, nested batches, batch_watch,
   update inside a batch, discard_events inside / around a batch): STRICTLY one call per batch.
 
+* deep sub-object family (bounded/c07_multi.py, shared with C07): 1-3 watch=True methods over sub-object paths of
+  depth 1-3 sharing prefixes; every single operation (replacement at EVERY level by an object with equal /
+  different nested values, detach, re-attach, leaf assignment) as assignment / update / batch on the owner /
+  batch on the top object: exactly one call of every method whose reached value changed, none of the others.
+
 Lenient readings (never demand more than the statement):
 
 * a method hit by n >= 2 separate assignments made by other methods inside ONE top-level step
@@ -66,6 +71,7 @@ from concurrent.futures import ProcessPoolExecutor
 
 from bounded._api import Bounded, REPLAY_HEADER
 from bounded import c06_mix
+from bounded import c07_multi
 
 # ------------------------------------------------------------------------------------------
 # symbolic description of a family
@@ -1232,6 +1238,12 @@ def _run(tier, seed):
               "batch inside discard_events; every operation alone on a fresh instance + a seeded permutation of all "
               "operations on one instance; oracle: exactly one call per operation changing >= 1 dependency (0..1 if "
               "only discarded assignments hit), none otherwise, for m and for the watch=True helpers. "
+              "Deep sub-object family (bounded/c07_multi.py, shared with C07): 1-3 watch=True methods over paths of "
+              "depth 1-3 sharing prefixes ('a.b.x', 'a.b.y', 'a.c.x', 'a.b.c.x', ...); every single operation "
+              "(replacement of the object at EVERY level by a copy with equal / different nested values or by one "
+              "equal to a sibling, detach, re-attach, leaf assignment) in the forms assignment / update / batch on the "
+              "owner / batch on the top object: exactly one call of every method whose reached value changed, none of "
+              "the others. "
               "A case = (family, class, constructor form, program); distinct by that tuple"),
         bound=("<= 4 classes, <= 2 dependent methods, dependency sets over 2 parameters + 'p:bounds' + "
                "method-on-method; programs: 13-operation permutation + programs <= 3 (sampled), all "
@@ -1271,6 +1283,10 @@ def _run(tier, seed):
         # mixed-kind family (values + slot specs + methods in one dependency set, all batching forms)
         mchunks, m_nops, _mfull = c06_mix.tasks(tier, seed)
         fut_m = [ex.submit(c06_mix.run_chunk, c) for c in mchunks]
+        # deep sub-object paths, several methods, every form of assignment (bounded/c07_multi.py, shared with C07)
+        dchunks, dtext = c07_multi.plan('C06', tier, seed)
+        fut_d = [ex.submit(c07_multi.run_chunk, c) for c in dchunks]
+        B.note(dtext)
         for fu in fut_f:
             for ncases, keys, cc, viols in fu.result():
                 for k in keys:
@@ -1301,6 +1317,7 @@ def _run(tier, seed):
                 if viol:
                     sfv.append(viol)
         mix_results = [fu.result() for fu in fut_m]
+        deep_results = [fu.result() for fu in fut_d]
     check_parse(B)
 
     # ---- representatives
@@ -1354,6 +1371,7 @@ def _run(tier, seed):
                         % (rep['site'], rep['got'], 'construction' if rep['step'] == 'init' else 'the last step',
                            (rep['lo'], rep['hi']))))
     reports += c06_mix.collect(B, mix_results)
+    reports += c07_multi.collect(B, 'C06', deep_results)
     reports.sort(key=lambda r: (r[0], len(r[1]), r[1]))
     per_clause, kept = {}, []
     for r in reports:
